@@ -95,3 +95,24 @@ Proof.
   - reflexivity.
   - unfold process_finished, mark, reap. cbn [stopped]. reflexivity.
 Qed.
+
+(* ---------------------------------------------------------------------------------------------
+   _ReadyToRunQueue as TRANSLATED from executor.py: the model's two ready lists are its two FIFO queues *)
+Lemma queue_tie : forall p s o,
+  has_ops s = gen_queue_has_ops (length (readyS s)) (length (readyP s)) /\
+  has_par s = gen_queue_has_par (length (readyS s)) (length (readyP s)) /\
+  readyP (enqueue p s o) = (if gen_enqueue_to_parallel (is_par p o) then readyP s ++ [o] else readyP s) /\
+  readyS (enqueue p s o) = (if gen_enqueue_to_parallel (is_par p o) then readyS s else readyS s ++ [o]) /\
+  dequeue s = (if gen_dequeue_from_parallel (has_par s)
+               then (hd 0 (readyP s), readyS s, tl (readyP s))
+               else (hd 0 (readyS s), tl (readyS s), [])) /\
+  gen_queues_are_fifo = true.
+Proof.
+  intros p s o. unfold has_ops, has_par, gen_queue_has_ops, gen_queue_has_par, enqueue, dequeue, gen_enqueue_to_parallel, gen_dequeue_from_parallel.
+  repeat split.
+  - destruct (readyS s), (readyP s); reflexivity.
+  - destruct (readyP s); reflexivity.
+  - destruct (is_par p o); reflexivity.
+  - destruct (is_par p o); reflexivity.
+  - destruct (readyP s) as [|x rP]; [destruct (readyS s); reflexivity|reflexivity].
+Qed.
